@@ -426,6 +426,12 @@ package trzsz
 //@   ensures [C07] recvWF07(t)
 //@   ensures [C10] recvWF10(t)
 //@   ensures [C07,C09] r2 == nil ==> plainName(r1)
+//@   # C07: one fresh name per source path - without overwrite the name used (and reported) is the one
+//@   # recorded for the entry's path id: recorded now if it was not, and the recorded one if it was
+//@   ensures [C07] r2 == nil && !t.transferConfig.Overwrite ==> \
+//@       has(t.fileNameMap, srcFile.PathID) && t.fileNameMap[srcFile.PathID] == r1
+//@   ensures [C07] r2 == nil && !t.transferConfig.Overwrite && old(has(t.fileNameMap, srcFile.PathID)) ==> \
+//@       r1 == old(t.fileNameMap[srcFile.PathID])
 //@   ensures r2 == nil && srcFile.Archive ==> awWF(r0)
 //@   # lemma at each Join: every element after the first is a plain name
 //@   before filepath.Join assert [C07,C09] forall i int {p0[i]} :: 1 <= i && i < len(p0) ==> plainName(p0[i])
@@ -757,7 +763,7 @@ package trzsz
 //@   requires !typeis(t.writer, "*md5.digest")
 //@   assigns fields(t.buffer), recvd, bufLen, bufCap, bufArr, elemsof("byte"), wlog, wlen, fpos, fsize
 //@   ensures tbWF(t.buffer)
-//@   ensures [C08] r0 == nil && old(tgtFile.Size) > 0 && result_of("fileWriter.getFile", 0, 0) != nil ==> \
+//@   ensures [C02,C08] r0 == nil && old(tgtFile.Size) > 0 && result_of("fileWriter.getFile", 0, 0) != nil ==> \
 //@       fsize[result_of("fileWriter.getFile", 1, 0)] == fpos[result_of("fileWriter.getFile", 1, 0)]
 //@   # agreed: the step of the last acknowledgement sent with Match=true (history the code keeps only implicitly)
 //@   ghostvar agreed int64 = 0
